@@ -40,10 +40,41 @@ pub fn run(ctx: &Ctx) -> Report {
             acc
         })
         .reduce(Acc::default, |a, b| a.merge(b));
+    // the one attribute an accepted message can hide is a MESSAGE-INTEGRITY behind a
+    // MESSAGE-INTEGRITY-SHA256; its 20 value bytes are not authenticated and are the attacker's to
+    // choose: every placement of a sealing-attribute header (FINGERPRINT / MI / MI-SHA256, with
+    // length fields 0..=4 / the regular one) at every 4-aligned offset of that value
+    let mut look: Vec<Case> = Vec::new();
+    for prefix in [vec![], vec![Tok::Sw(3)], vec![Tok::Opt(1), Tok::User]] {
+        for n256 in [16u8, 32] {
+            for with_fp in [false, true] {
+                for (t, lens) in [(wire::FP, vec![0u16, 1, 2, 3, 4, 8]), (wire::MI, vec![0, 4, 20]), (wire::MI256, vec![0, 4, 16, 32])] {
+                    for l in lens {
+                        for off in (0..=16usize).step_by(4) {
+                            for fill in [0x00u8, 0xFF] {
+                                let mut toks = prefix.clone();
+                                toks.push(Tok::Mi256(n256));
+                                let mut b = engine_in::render(0, 1, tid, &toks);
+                                let mut v = vec![fill; 20];
+                                v[off..off + 2].copy_from_slice(&t.to_be_bytes());
+                                v[off + 2..off + 4].copy_from_slice(&l.to_be_bytes());
+                                wire::append_raw(&mut b, wire::MI, &v);
+                                if with_fp {
+                                    wire::append_fp(&mut b);
+                                }
+                                look.push(Case::new("expose", b));
+                            }
+                        }
+                    }
+                }
+            }
+        }
+    }
+    let acc = acc.merge(crate::props::sweep(look.into_par_iter(), judge));
     Report {
         acc,
         exhaustive: true,
-        rule: "all sequences over {OPT, SOFTWARE, USERNAME, MI, MI256/32, MI256/16, FP} up to the depth, reference-serialised with correct HMACs/CRC, x {request, success}; only those the reference decoder accepts are judged (distinct_nontrivial); tail replacement is covered because every alternative tail of a prefix is itself a sequence of the space".into(),
+        rule: "all sequences over {OPT, SOFTWARE, USERNAME, MI, MI256/32, MI256/16, FP} up to the depth, reference-serialised with correct HMACs/CRC, x {request, success}; only those the reference decoder accepts are judged (distinct_nontrivial); plus messages whose hidden MESSAGE-INTEGRITY (behind MI-SHA256) carries a sealing-attribute header at every 4-aligned offset of its value; tail replacement is covered because every alternative tail of a prefix is itself a sequence of the space".into(),
         bounds: json!({"sequences": n_sk, "depth": depth, "classes": 2}),
         assumptions: vec!["parser acceptance itself is C02's business: buffers the reference refuses are skipped here".into()],
         ..Default::default()
